@@ -21,4 +21,6 @@ var (
 	ErrDialTimeout = errors.New("dial timeout")
 
 	ErrUnsupported = errors.New("unsupported operation")
+
+	ErrEngineStopped = errors.New("engine stopped")
 )
